@@ -101,6 +101,7 @@ func (ds *AnySource) RunDoneDeactivate() {
 	ds.sourceStateLock.Lock()
 	ds.sourceState = Inactive
 	ds.runDone.Done()
+	vevent("RunDone.deactivate")
 	ds.sourceStateLock.Unlock()
 }
 
@@ -141,10 +142,12 @@ func Start(ds DataSource, queuedRequests chan func(), Npresamp int, Nsamples int
 	if err := ds.SetStateStarting(); err != nil {
 		return err
 	}
+	vpoint("Start.begin")
 	if err := ds.Sample(); err != nil {
 		ds.SetStateInactive()
 		return err
 	}
+	vpoint("Start.sampled")
 
 	if err := ds.PrepareChannels(); err != nil {
 		ds.SetStateInactive()
@@ -155,6 +158,7 @@ func Start(ds DataSource, queuedRequests chan func(), Npresamp int, Nsamples int
 		ds.SetStateInactive()
 		return err
 	}
+	vpoint("Start.prepared")
 
 	ds.RunDoneActivate() // Call RunDoneDeactivate inside CoreLoop when it returns.
 	if err := ds.StartRun(); err != nil {
@@ -163,6 +167,7 @@ func Start(ds DataSource, queuedRequests chan func(), Npresamp int, Nsamples int
 	}
 
 	go CoreLoop(ds, queuedRequests)
+	vpoint("Start.launched")
 	return nil
 }
 
@@ -173,6 +178,7 @@ func CoreLoop(ds DataSource, queuedRequests chan func()) {
 	nextBlock := ds.getNextBlock()
 
 	for {
+		vpoint("CoreLoop.select")
 		// Use select to interleave 2 activities that should NOT be done concurrently:
 		// 1. Handle RPC requests to change data processing parameters (e.g. trigger).
 		// 2. Handle new data and process it.
@@ -180,24 +186,30 @@ func CoreLoop(ds DataSource, queuedRequests chan func()) {
 
 		// Handle RPC requests
 		case request := <-queuedRequests:
+			vpoint("CoreLoop.request")
 			request()
+			vpoint("CoreLoop.requestDone")
 
 		// Handle data, or recognize the end of data
 		case block, ok := <-nextBlock:
 			if !ok {
 				// nextBlock was closed in the data production loop when abortSelf was closed
 				log.Println("nextBlock channel was closed; stopping the source normally")
+				vpoint("CoreLoop.exit")
 				return
 
 			} else if block.err != nil {
 				// errors in block indicate a problem with source: need to close down
 				log.Printf("nextBlock received Error; stopping source: %s\n", block.err.Error())
+				vpoint("CoreLoop.exit")
 				return
 			}
+			vpoint("CoreLoop.block")
 			if err := ds.ProcessSegments(block); err != nil {
 				log.Printf("AnySource.ProcessSegments returns Error; stopping source: %s\n", err.Error())
 				panic("Panic to stop source when processSegments errors. This seems to keep the Lancero working better than stopping the source")
 			}
+			vpoint("CoreLoop.blockDone")
 			// In some sources, ds.getNextBlock has to be called again to initiate the next
 			// data acquisition step (Lancero, specifically).
 			nextBlock = ds.getNextBlock()
@@ -228,8 +240,10 @@ func (ds *AnySource) Stop() error {
 	ds.sourceState = Stopping
 	closeIfOpen(ds.abortSelf)
 	ds.sourceStateLock.Unlock()
+	vpoint("Stop.signalled")
 
 	ds.RunDoneWait()
+	vpoint("Stop.waited")
 	ds.groupKeysSorted = make([]GroupIndex, 0)
 	if ds.writingState.Active { // if writing, Stop writing
 		wcc := WriteControlConfig{Request: "STOP"}
